@@ -7,6 +7,7 @@ open Rs1090 Rs1090.Model Rs1090.Driver
 def handle : List String → Option String
   | ["dec", h] => (parseHex h).map fun bs => Message.showDecoded (Message.tryFrom bs)
   | ["dec"] => some (Message.showDecoded (Message.tryFrom []))
+  | ["decb", h] => (parseHex h).map fun bs => Message.showDecoded (Message.fromBytes bs)
   | _ => none
 
 end Rs1090.Driver.C08
